@@ -572,12 +572,14 @@ class WriterThread(threading.Thread):
 
         elif event.kind == EventKind.DELETE:
             # delete the referenced events
-            try:
-                ids = set(
-                    (bytes_from_hex(tag[1]) for tag in event.tags if tag[0] == "e")
-                )
-            except IndexError:
-                ids = []
+            # malformed references are ignored, they must not abort the transaction
+            ids = set()
+            for tag in event.tags:
+                if tag[0] == "e" and len(tag) > 1:
+                    try:
+                        ids.add(bytes_from_hex(tag[1]))
+                    except (ValueError, TypeError):
+                        pass
             if not ids:
                 return
             with INDEXES["authors"].scanner(
